@@ -53,6 +53,11 @@ CLAIMED = {
             "Trusted: the double's propagation rule table (documented Redis master behaviour, limited to the commands used), MULTI/EXEC semantics, lenient handling of business commands. Incremental phase only; no restarts.",
             "deterministic simulation of a two-site replication loop + exactly-once / quiescence oracle",
             "DESIGN.md §3 C13"),
+    "C18": ("exploration",
+            "Bidirectional replay (all three modes) against a 3-node cluster of node doubles that compute HASH_SLOT themselves and enforce single-slot transactions (CROSSSLOT at EXEC, MOVED for a wrong node): seeded unit streams with adversarial brace arrangements, with or without one unroutable unit at a drawn position. Any CROSSSLOT/MOVED answer, any partial or approximate replay of a unit, any refusal of a single-slot unit, and anything of an unroutable unit reaching a node is a violation.",
+            "Trusted: node doubles (slot function from the cluster specification, own key-position table), stable topology. The property has no fault axis; the simulator contributes the independent cluster peer and the schedule of concurrent lanes.",
+            "deterministic simulation against slot-checking cluster node doubles",
+            "DESIGN.md §3 C18"),
 }
 
 NOT_APPLICABLE = {
